@@ -594,6 +594,7 @@ func (fs *FS) begin(c *Call) {
 	}
 	if fs.Hold != nil && fs.Hold(c) {
 		c.Held = true
+		simrt.Fault("backend.call-stalled")
 		simrt.Probe("fs.held")
 		simrt.Block("held in "+c.Method, func() bool { return !c.Held })
 	} else {
